@@ -72,7 +72,8 @@ PROPS = {
              'Kani contracts over u8 buffers with both layouts symbolic: eq == equality of the element sequences for capacity pairs (N, M) incl. slices, arrays and references to them; '
              'partial_cmp/cmp == lexicographic order; equal same-capacity buffers feed identical data to a recording Hasher. Bounded in (N, M).',
              not_covered=['Debug output under every formatter flag (assumed contract of core::fmt::DebugList; the crate-side obligation that (&buf).into_iter() yields the view is checked under C07/C08)']),
-    'C14': P('other', False,
+    'C14': P('other', True,
+             'Verus proves (all N) the functions the impls are built from: extend_from_slice keeps the last N of (old contents ++ input), truncate_front keeps the suffix, as_slices presents the contents. '
              'Kani contracts for std::io::{Write, Read, BufRead} on CircularBuffer<N, u8>: symbolic layout, symbolic input / destination lengths, consume(k) over the full usize range; '
              'results and contents are those of the byte-stream model; never Err, never a panic, capacity 0 included. Bounded in N.'),
     'C16': P('other', False,
